@@ -257,9 +257,12 @@ class Parser(object):
 
     def p_enum_def(self, t):
         '''enum_def : ENUM unique_id enum_body SEMI'''
-        node = model.Enum(t[2], t[3])
-        self.typedecls[t[2]] = node
-        self.nodes.append(node)
+        try:
+            node = model.Enum(t[2], t[3])
+            self.typedecls[t[2]] = node
+            self.nodes.append(node)
+        except model.ModelError as e:  # actual raise is postponed till end of parsing
+            self._parser_error(str(e), t.lexer.lineno, 0)
 
     def p_enum_body(self, t):
         '''enum_body : LBRACE enum_member_list RBRACE'''
@@ -443,6 +446,11 @@ class Parser(object):
         self._parser_check(
             t[1] not in self.typedecls and t[1] not in self.constdecls,
             "name '{}' redefined".format(t[1]),
+            t.lineno(1), t.lexpos(1)
+        )
+        self._parser_check(
+            t[1] not in model.BUILTIN_SIZES,
+            "'{}' is the name of a built-in type and cannot be defined".format(t[1]),
             t.lineno(1), t.lexpos(1)
         )
         t[0] = t[1]
